@@ -4,16 +4,21 @@ import itertools
 from ..teval import (Adt, Tup, Ref, Place, Cell, Sym, RList, Top, Panicked, strip, some, none, Interp)
 from .. import tabulate
 from . import c20
+from . import walkfam as W
 
 EXPLANATION = (
-    "NARROW: the numeric depth window (saturating translation by the pivot; the prefix case named in the property) and "
-    "termination are NOT decided.  Decided is the plumbing: (plumb) WalkTree::with_pivot_and_behavior hands each depth "
-    "behaviour to the right walkdir builder method - Max to max_depth, Min to min_depth, MinMax to both with minimum and "
-    "maximum not swapped, Unbounded to neither - and the link behaviour to follow_links (ReadFile = false, ReadTarget = "
-    "true), evaluated with the pivot translation stubbed so that only the routing is observed; (ctor) the DepthBehavior "
-    "constructors over a grid of small numbers (tri-state: what bounded(0, n) returns is not fixed by the property); "
-    "(cycle) walkdir loop errors become WalkErrorKind::LinkCycle (C20.map).")
-RULES = "C15.plumb (EFFECT), C15.ctor (TABLE), C15.translate (TABLE on a grid), C15.cycle (= C20.map)"
+    "Decided: (window) for every depth behaviour (Unbounded, Max 0..5, Min 1..4, MinMax with minimum 1..4 and extent 0..3) "
+    "x pivot 0..4 (number of prefix components) x link behaviour, the walk that WalkTree::with_pivot_and_behavior "
+    "constructs consults walkdir with exactly the window of traversal depths w for which min <= w + pivot <= max, with "
+    "follow_links = (link behaviour is ReadTarget), and consults nothing at all when no depth qualifies (maximum smaller "
+    "than the prefix) - evaluated end to end (constructor, then the first next()) against a model of walkdir's builder "
+    "with its documented clamping, so the rule does not depend on how the translation is split between functions.  The "
+    "functions only add, subtract and compare their small arguments, so a grid covering every ordering of (min, max, "
+    "pivot) decides them; (ctor) the DepthBehavior constructors over a grid of small numbers (tri-state: what "
+    "bounded(0, n) returns is not fixed by the property); (cycle) walkdir loop errors become WalkErrorKind::LinkCycle "
+    "(C20.map).  That walkdir honours its window, never descends into links unless asked and detects re-entrant links "
+    "is assumed; termination on finite trees follows from walkdir's and is not decided.")
+RULES = "C15.window (TABLE on a grid), C15.ctor (TABLE), C15.cycle (= C20.map)"
 
 DB = "walk::behavior::DepthBehavior"
 LB = "walk::behavior::LinkBehavior"
@@ -23,57 +28,10 @@ def run(ctx):
     F = ctx.facts()
     R = ctx.report
     R.assume("walkdir implements min_depth / max_depth / follow_links and loop detection as documented")
-    R.undecided("the window after translation by the pivot (`a/b/**` with maximum 1 yields `a/b` at depth 2: saturating "
-                "subtraction), emptiness when the bounds exclude every depth, termination on finite trees")
-    rule_plumb(F, R)
+    R.undecided("emptiness when the minimum exceeds the deepest entry of the actual tree (a run-time quantity); termination on finite trees (walkdir's)")
     rule_ctor(F, R)
-    rule_translate(F, R)
+    rule_window(F, R)
     c20.rule_map(F, R)
-
-
-def rule_plumb(F, R):
-    it = F.find("walk::WalkTree::with_pivot_and_behavior")
-    depth_cases = {
-        "Max": (Adt(DB, "Max", {"0": Adt("walk::behavior::DepthMax", "DepthMax", {"0": Sym("max")})}), {"max_depth": "max_at_pivot(max,pivot)"}),
-        "Min": (Adt(DB, "Min", {"0": Adt("walk::behavior::DepthMin", "DepthMin", {"0": Sym("min")})}), {"min_depth": "min_at_pivot(min,pivot)"}),
-        "MinMax": (Adt(DB, "MinMax", {"0": Adt("walk::behavior::DepthMinMax", "DepthMinMax", {"min": Sym("min"), "extent": Sym("extent")})}),
-                   {"min_depth": "minmax.0", "max_depth": "minmax.1"}),
-        "Unbounded": (Adt(DB, "Unbounded", {}), {}),
-    }
-    for (dname, (dval, want_depth)), (lname, follow) in itertools.product(depth_cases.items(), (("ReadFile", False), ("ReadTarget", True))):
-        calls = {}
-
-        def builder(method):
-            def st(I, a, fn, e):
-                v = strip(a[1])
-                calls[method] = v if isinstance(v, bool) else _n(v)
-                return a[0]
-            return st
-        stubs = {
-            "walkdir::WalkDir::new": lambda I, a, fn, e: Sym("builder"),
-            "walkdir::WalkDir::follow_links": builder("follow_links"),
-            "walkdir::WalkDir::min_depth": builder("min_depth"),
-            "walkdir::WalkDir::max_depth": builder("max_depth"),
-            "walk::behavior::DepthMax::max_at_pivot": lambda I, a, fn, e: Sym("max_at_pivot(%s,%s)" % (_n(strip(a[0]).fields["0"]), _n(a[1]))),
-            "walk::behavior::DepthMin::min_at_pivot": lambda I, a, fn, e: Sym("min_at_pivot(%s,%s)" % (_n(strip(a[0]).fields["0"]), _n(a[1]))),
-            "walk::behavior::DepthMinMax::min_max_at_pivot": lambda I, a, fn, e: Tup([Sym("minmax.0"), Sym("minmax.1")]),
-            "std::iter::IntoIterator::into_iter": lambda I, a, fn, e: Sym("walkdir-iter"),
-        }
-        I = Interp(F, stubs)
-        beh = Adt("walk::behavior::WalkBehavior", "WalkBehavior", {"link": Adt(LB, lname, {}), "depth": dval})
-        cases = I.explore(lambda: I.call_item(it, [Sym("root"), Sym("pivot"), beh], inst=False))
-        res = strip(tabulate.single(cases))
-        inst = "%s/%s" % (dname, lname)
-        if not isinstance(res, Adt):
-            R.fail("C15.plumb", inst, "unanalysable: %r" % (cases[:1],), it.where())
-            continue
-        want = dict(want_depth)
-        want["follow_links"] = follow
-        R.check(calls == want, "C15.plumb", inst, "builder calls %s" % want, it.where(),
-                fail_msg="with depth behaviour %s and link behaviour %s the walkdir builder receives %s, expected %s (minimum to "
-                         "min_depth, maximum to max_depth, ReadTarget = follow links)" % (dname, lname, calls, want))
-        R.check(strip(res.fields.get("is_dir")) is False, "C15.plumb", inst + "/is_dir", "a new walk starts with no current directory", it.where(),
-                fail_msg="a new WalkTree starts with is_dir = %r" % (res.fields.get("is_dir"),))
 
 
 def decode(v):
@@ -138,39 +96,73 @@ def _n(v):
     return v.name if isinstance(v, Sym) else repr(v)
 
 
-def rule_translate(F, R):
-    """Translation of the bounds past a prefix of `pivot` components: an entry at depth d from the root segment is at
-    walkdir depth d - pivot, so the walkdir minimum is max(min - pivot, 0) and the walkdir maximum is max - pivot.
-    What happens when max < pivot is the property's known deviation and a don't-care here.  The functions only add,
-    subtract (saturating) and compare their three small arguments: a grid covering every ordering of (min, max, pivot)
-    with three or more values each decides them."""
-    I = Interp(F)
-    fmin = F.find("walk::behavior::DepthMin::min_at_pivot")
-    fmax = F.find("walk::behavior::DepthMax::max_at_pivot")
-    fmm = F.find("walk::behavior::DepthMinMax::min_max_at_pivot")
+INF = W.INF
+
+
+def rule_window(F, R):
+    """C15.window (TABLE on a grid): the walk constructed for (depth behaviour, pivot) consults walkdir with exactly the
+    window of traversal depths w for which min <= w + pivot <= max, and consults nothing when no depth qualifies
+    (maximum smaller than the prefix).  Construction and the first next() are evaluated together, so the rule does not
+    depend on how the translation is split between functions."""
+    ctor = F.find("walk::WalkTree::with_pivot_and_behavior")
+    nxt = F.find("<walk::WalkTree as std::iter::Iterator>::next")
+    cells = []
+    for pv in range(0, 5):
+        cells.append(("Unbounded", None, None, pv, Adt(DB, "Unbounded", {})))
+        for mx in range(0, 6):
+            cells.append(("Max", None, mx, pv, Adt(DB, "Max", {"0": Adt("walk::behavior::DepthMax", "DepthMax", {"0": mx})})))
+        for mn in range(1, 5):
+            cells.append(("Min", mn, None, pv, Adt(DB, "Min", {"0": Adt("walk::behavior::DepthMin", "DepthMin", {"0": mn})})))
+            for ex in range(0, 4):
+                cells.append(("MinMax", mn, mn + ex, pv, Adt(DB, "MinMax", {"0": Adt("walk::behavior::DepthMinMax", "DepthMinMax", {"min": mn, "extent": ex})})))
     n = 0
-    for mn, pv in itertools.product(range(1, 6), range(0, 6)):
-        got = strip(tabulate.single(I.explore(lambda: I.call_item(fmin, [Adt("walk::behavior::DepthMin", "DepthMin", {"0": mn}), pv]))))
-        n += 1
-        R.check(got == max(mn - pv, 0), "C15.translate", "min_at_pivot(%d,%d)" % (mn, pv), str(max(mn - pv, 0)), fmin.where(),
-                fail_msg="a minimum depth of %d behind a prefix of %d component(s) becomes %r, expected %d" % (mn, pv, got, max(mn - pv, 0)))
-    for mx, pv in itertools.product(range(0, 6), range(0, 6)):
-        if mx < pv:
-            continue
-        got = strip(tabulate.single(I.explore(lambda: I.call_item(fmax, [Adt("walk::behavior::DepthMax", "DepthMax", {"0": mx}), pv]))))
-        n += 1
-        R.check(got == mx - pv, "C15.translate", "max_at_pivot(%d,%d)" % (mx, pv), str(mx - pv), fmax.where(),
-                fail_msg="a maximum depth of %d behind a prefix of %d component(s) becomes %r, expected %d" % (mx, pv, got, mx - pv))
-    for mn, ex, pv in itertools.product(range(1, 5), range(0, 4), range(0, 6)):
-        mx = mn + ex
-        if mx < pv:
-            continue
-        me = Adt("walk::behavior::DepthMinMax", "DepthMinMax", {"min": mn, "extent": ex})
-        res = strip(tabulate.single(I.explore(lambda: I.call_item(fmm, [me, pv]))))
-        got = (strip(res.items[0]), strip(res.items[1])) if isinstance(res, Tup) else None
-        want = (max(mn - pv, 0), mx - pv)
-        n += 1
-        R.check(got == want, "C15.translate", "min_max_at_pivot(%d..%d,%d)" % (mn, mx, pv), str(want), fmm.where(),
-                fail_msg="the depth window %d..%d behind a prefix of %d component(s) becomes %r, expected %s: entries deeper than the "
-                         "maximum would be yielded (or shallower ones lost)" % (mn, mx, pv, got, want))
-    R.floor("C15.translate", "translation cells", n, 100)
+    grouped = {}
+    for kind, mn, mx, pv, dval in cells:
+        for lname, follow in (("ReadFile", False), ("ReadTarget", True)):
+            I = Interp(F, W.walkdir_stubs())
+            beh = Adt("walk::behavior::WalkBehavior", "WalkBehavior", {"link": Adt(LB, lname, {}), "depth": dval})
+
+            def run():
+                tree = W.walk_tree(F, I, depth=dval, link=lname, pivot=pv)
+                if isinstance(tree, (Top, Panicked)):
+                    return tree
+                t = strip(tree)
+                if isinstance(t, Adt) and "is_dir" in t.fields and strip(t.fields["is_dir"]) is not False:
+                    I.emit("fresh-is-dir", repr(strip(t.fields["is_dir"])))
+                return I.call_item(nxt, [Ref(Place(Cell(tree)))])
+            cases = I.explore(run)
+            consulted = [tuple(ev[1:]) for ev in cases[0].log if ev[0] == "walkdir.next"] if cases else []
+            stale = [ev for ev in cases[0].log if ev[0] == "fresh-is-dir"] if cases else []
+            n += 1
+            inst = "%s(min=%s,max=%s)/pivot=%d/%s" % (kind, mn, mx, pv, lname)
+            if len(cases) != 1 or isinstance(cases[0].result, (Top, Panicked)):
+                R.fail("C15.window", inst, "constructing the walk and taking its first item is unanalysable / panics: %r" % ([c.result for c in cases][:2],), ctor.where())
+                continue
+            lo = max((mn or 0) - pv, 0)
+            hi = INF if mx is None else mx - pv
+            want = [] if hi < 0 else [(lo, hi, follow)]
+            if stale:
+                grouped.setdefault((kind, "a new walk starts with a current directory"), []).append((inst, "a fresh WalkTree has is_dir = %s: a cancellation before the first entry would skip a directory" % stale[0][1]))
+                continue
+            if consulted == want:
+                R.ok("C15.window", inst, "walkdir window %s" % (("depths %d..%s" % (lo, "inf" if hi == INF else hi)) if want else "empty walk"), ctor.where(), sample=(n % 41 == 0))
+                continue
+            got = consulted[0] if consulted else None
+            if not want:
+                sig = "maximum below the prefix length still walks"
+                text = ("a maximum depth of %d with a prefix of %d component(s) excludes every entry (the walk root is at depth %d), but "
+                        "walkdir is consulted with depths %s..%s: the prefix directory itself is yielded" % (mx, pv, pv, got[0], got[1]))
+            elif got is None:
+                sig = "walk is empty although depths qualify"
+                text = "the window %d..%s is not empty but walkdir is never consulted" % (lo, hi)
+            elif got[2] != follow:
+                sig = "link behaviour"
+                text = "link behaviour %s gives follow_links = %r" % (lname, got[2])
+            else:
+                sig = "window differs"
+                text = "walkdir is consulted with depths %s..%s, expected %d..%s (entries at traversal depth w are at depth w + %d)" % (
+                    got[0], "inf" if got[1] == INF else got[1], lo, "inf" if hi == INF else hi, pv)
+            grouped.setdefault((kind, sig), []).append((inst, text))
+    for (kind, sig), items in sorted(grouped.items()):
+        R.fail("C15.window", "%s/%s" % (kind, sig), "%d cell(s), first: %s: %s" % (len(items), items[0][0], items[0][1]), ctor.where())
+    R.floor("C15.window", "behaviour x pivot x link cells", n, 250)
